@@ -268,8 +268,32 @@ class TraceVerdict:
         self.nontrivial = 0
 
 
+def explain(scratch, family, module, cfg, evs, idx, extra_env, timeout):
+    """what does the specification expect for event idx of this segment? (Expect(...) in the trace spec)"""
+    p = os.path.join(scratch, "explain.ndjson")
+    with open(p, "w") as f:
+        for e in evs[:idx + 1]:
+            f.write(json.dumps(e) + "\n")
+    env = {"VERIF_TRACE": p, "VERIF_EXPLAIN": "1"}
+    if extra_env:
+        env.update({k: v for k, v in extra_env.items() if k != "VERIF_TRACE"})
+    try:
+        r = run_tlc(scratch, family, module, cfg, env=env, workers=1, timeout=min(timeout, 300))
+    except MachineryError:
+        return None
+    exp = None
+    for ln in r.printed:
+        m = re.match(r'^<<"EXPECT", (\d+), (".*")>>$', ln)
+        if m and int(m.group(1)) == idx + 1:
+            try:
+                exp = json.loads(json.loads(m.group(2)))
+            except Exception:
+                exp = m.group(2)
+    return exp
+
+
 def validate_trace(scratch, family, module, cfg, trace_path, workers=None, timeout=1500, chunk_events=150000,
-                   extra_env=None):
+                   extra_env=None, explain_max=6):
     """Validate every segment of the ndjson trace with TLC. Returns TraceVerdict."""
     events = load_trace(trace_path)
     segs = segments(events)
@@ -354,8 +378,11 @@ def validate_trace(scratch, family, module, cfg, trace_path, workers=None, timeo
                 if nxt >= len(evs):
                     # all events consumed but an invariant failed on the last state / SegDone not reached
                     nxt = len(evs) - 1
-                v.failed.append({"start": ch[i][0], "fail_index": nxt, "event": evs[nxt], "segment": evs,
-                                 "violated": r.violated})
+                fl = {"start": ch[i][0], "fail_index": nxt, "event": evs[nxt], "segment": evs,
+                      "violated": r.violated}
+                if len(v.failed) < explain_max:
+                    fl["expected"] = explain(scratch, family, module, cfg, evs, nxt, extra_env, timeout)
+                v.failed.append(fl)
     v.wall = time.time() - t0
     return v
 
